@@ -1062,10 +1062,14 @@ def c09_heal(S, rng, todo, want, random_close=False, heal_at=0):
     steps, max_steps = 0, 6000
     end = None
     idle_rounds = 0
+    ops0 = len(S.ops)
     while S.alive() and steps < max_steps:
         steps += 1
-        if not random_close and (S.now - t_heal) % M32 > c09_bound({"want": want, "mss_min": S.mss_min}):
+        if (S.now - t_heal) % M32 > c09_bound({"want": want, "mss_min": S.mss_min}):
             end = "bound-exceeded"
+            break
+        if len(S.ops) - ops0 > 25000:
+            end = "op-cap"
             break
         burst = 0
         # (at most 100 deliveries before the applications and the clocks get their turn: two sockets that both miss
@@ -1147,12 +1151,13 @@ def c09_heal(S, rng, todo, want, random_close=False, heal_at=0):
 def c09_bound(c):
     """completion bound after healing (ms).  What the code guarantees: once everything queued has been transmitted (the
     FIN/RST flush transmits the whole queue at once) lost segments are recovered by the retransmission timer only, ONE
-    segment per expiry, and the timer may sit at its ceiling MAX_RTO (the RTT estimator decays slowly).  Hence
-    (outstanding segments + a few timer periods for the handshake/close in both directions) x MAX_RTO, plus the 15 s
-    zero-window give-up.  Outstanding segments <= data / smallest MSS used in the run."""
+    segment per expiry, and the timer may sit at its ceiling MAX_RTO (the RTT estimator decays slowly); a peer that is
+    already gone (pre-FIN-ACK close, or a lost final ACK) is detected after at most 30 expiries (`transmit` gives up).
+    Hence (outstanding segments + 30 + a few timer periods for handshake/close in both directions) x MAX_RTO, plus the
+    15 s zero-window give-up.  Outstanding segments <= data / smallest MSS used in the run."""
     data = c["want"]["l"] + c["want"]["r"]
     segs = data // max(c["mss_min"], 1) + 2
-    return MAX_RTO * (segs + 6) + 15000
+    return MAX_RTO * (segs + 36) + 15000
 
 
 def oracle_c09(S):
@@ -1168,7 +1173,7 @@ def oracle_c09(S):
             if c["read"][b] != c["sent"][a] or c["todo"][a] != 0:
                 return f"both sockets closed without error but {b} read {c['read'][b]} of the {c['sent'][a]} bytes accepted from {a} " \
                        f"({c['todo'][a]} never accepted)"
-    if not c["random_close"] and c["elapsed"] > c09_bound(c):
+    if c["elapsed"] > c09_bound(c):
         return f"completion took {c['elapsed']} ms after healing, bound is {c09_bound(c)} ms"
     return None
 
